@@ -92,11 +92,11 @@ def kani_harnesses(prop, tier):
         hs.append(dict(DEBLOCK, name="table_j2", nbytes=0, what="QUANT_TO_STRENGTH[1..=31] == Table J.2 (hence in 1..=12, the strengths deblock accepts)"))
         for name, w, h in shapes("hooks/deblock/shapes.rs", "geom"):
             if (w, h) in {(1, 1), (3, 1), (9, 2), (10, 9)} or (tier == "thorough" and w <= 12 and h >= 1):
-                hs.append(dict(DEBLOCK, name=name, nbytes=w * h + 1, timeout=900, what="deblock accepts a %dx%d plane with every strength 1..=12 without panic (plane of a decoded picture)" % (w, h), bound="plane %dx%d" % (w, h)))
+                hs.append(dict(DEBLOCK, name=name, nbytes=w * h + 1, timeout=900, only_checks=r"^(?!.*post_geometry)", what="deblock accepts a %dx%d plane with every strength 1..=12 without panic (plane of a decoded picture)" % (w, h), bound="plane %dx%d" % (w, h)))
         for name, w, h in shapes("hooks/yuv/shapes.rs", "geom"):
             if (w, h) in {(1, 1), (2, 1), (3, 2), (5, 3), (9, 2)} or tier == "thorough":
                 cn = ((w + 1) // 2) * ((h + 1) // 2)
-                hs.append(dict(YUV, name=name, nbytes=w * h + 2 * cn, timeout=900, what="yuv420_to_rgba accepts the planes of a %dx%d picture and returns exactly w*h pixels" % (w, h), bound="picture %dx%d" % (w, h)))
+                hs.append(dict(YUV, name=name, nbytes=w * h + 2 * cn, timeout=900, only_checks=r"^(?!.*post_pixel)", what="yuv420_to_rgba accepts the planes of a %dx%d picture and returns exactly w*h pixels" % (w, h), bound="picture %dx%d" % (w, h)))
     if prop == "C03":
         for n, w in [("lerp_params", "HalfPel::into_lerp_parameters == (floor(v/2), v odd) for every i16 (contract assumed by the Verus gather unit)"),
                      ("chroma_round", "HalfPel::average_sum_of_mvs == Table 16 rounding of sum/8 for every i16 sum"),
@@ -143,7 +143,10 @@ def kani_harnesses(prop, tier):
                                what="deblock on %dx%d with the real kernels == Annex J geometry with annex_j" % (w, h), bound="image %dx%d" % (w, h)))
     if prop == "C16":
         hs.append(dict(DEBLOCK, name="table_j2", nbytes=0, what="QUANT_TO_STRENGTH[1..=31] == Table J.2/H.263"))
-        hs += _deblock_geom(tier)
+        for h in _deblock_geom(tier):
+            # C16 claims acceptance of every size: any panic / overflow / bounds check and the length clause - not the filter geometry (C09)
+            h = dict(h, only_checks=r"^(?!.*post_geometry)", what=h["what"].replace("every byte == Annex J geometry (kernels by contract stub)", "(geometry clause belongs to C09)"))
+            hs.append(h)
     return hs
 
 
